@@ -29,6 +29,7 @@ import (
 	"bytes"
 	"errors"
 	"fmt"
+	"math"
 	"math/rand"
 	"net/url"
 	"reflect"
@@ -453,9 +454,10 @@ func filterFloatformat(in *Value, param *Value) (*Value, *Error) {
 		decimals = param.Integer()
 	}
 
-	// if the argument is not a number (e. g. empty), the default
-	// behaviour is trim the result
-	trim := !param.IsNumber()
+	// without an argument the default behaviour is to trim the result; a
+	// given argument decides by its value (below), however it was written:
+	// floatformat:3 and floatformat:"3" are the same
+	trim := param.IsNil()
 
 	if decimals <= 0 {
 		// argument is negative or zero, so we
@@ -465,9 +467,12 @@ func filterFloatformat(in *Value, param *Value) (*Value, *Error) {
 	}
 
 	if trim {
-		// Remove zeroes
-		if float64(int(val)) == val {
-			return AsValue(in.Integer()), nil
+		// Remove zeroes of a whole number (also of one beyond what an int holds)
+		if val == math.Trunc(val) {
+			if math.Abs(val) < 1<<53 {
+				return AsValue(in.Integer()), nil
+			}
+			return AsValue(strconv.FormatFloat(val, 'f', 0, 64)), nil
 		}
 	}
 
